@@ -160,6 +160,12 @@ def known_witnesses(ctx):
               'RegE2', [('d', 4), ('e', 2)], [('q', 4)], lambda t, i, o: P.Reg(t, 'x', i['d'], o['q'], enable=i['e']), [([('d', 9), ('e', 2)], 1)]))
     W.append(('equalconstant-oversized', 'EqualConstant with a constant >= 2**w: the inlined comparison uses the untruncated constant, the simulated Minterm compares modulo 2**w',
               'EqK', [('a', 3)], [('r', 1)], lambda t, i, o: P.EqualConstant(t, 'x', i['a'], 9, o['r']), [([('a', 1)], 0)]))
+    def two_adders(t, i, o):
+        P.Add(t, 'dbl', i['x'], i['x'], o['r1'])          # both operands on the same wire: emitted first, its body is `r = b + b + ci`
+        P.Add(t, 'sum', i['a'], i['b'], o['r2'])          # same module name Add4: bound to the first body
+    W.append(('shared-module-aliased-ports', 'two instances share the module Add4; the first has both operands on one wire, so the single emitted body reads `b + b` '
+              '(getWireNames keeps one port name per wire) and the second instance computes b+b instead of a+b',
+              'AddAlias', [('x', 4), ('a', 4), ('b', 4)], [('r1', 4), ('r2', 4)], two_adders, [([('x', 3), ('a', 1), ('b', 2)], 0)]))
     cases = []
     for fid, text, label, ins, outs, body, steps in W:
         try:
